@@ -75,7 +75,12 @@ def run_e2e(inp):
     install_snapshot()
     del _SNAP[:]
     try:
-        out, mz = pinch_analysis_service(copy.deepcopy(inp), is_return_full_results=True)
+        data = copy.deepcopy(inp)
+        # the input heat_flow of a utility is only a placeholder (targeting decides the duties): results must not depend on it
+        for i, u in enumerate(data.get("utilities") or []):
+            if u.get("heat_flow") in (0.0, None):
+                u["heat_flow"] = [0.0, 25.0, None, 7.5][(i + len(data["streams"])) % 4]
+        out, mz = pinch_analysis_service(data, is_return_full_results=True)
     except Exception as e:  # noqa: BLE001
         return dict(error=f"{type(e).__name__}: {e}")
     snaps = list(_SNAP)
